@@ -329,6 +329,15 @@ class Sym:
         d2 = o.d or {ONE_MONO: Fraction(1)}
         if d1 == d2:
             return _mk(_padd(self.n, o.n), d1)
+        # one denominator divides the other: use it as the common denominator
+        if len(d2) >= len(d1) and len(d1) > 1:
+            q = _pdiv_exact(d2, d1)
+            if q is not None:
+                return _mk(_padd(_pmul(self.n, q), o.n), d2)
+        if len(d1) >= len(d2) and len(d2) > 1:
+            q = _pdiv_exact(d1, d2)
+            if q is not None:
+                return _mk(_padd(self.n, _pmul(o.n, q)), d1)
         return _mk(_padd(_pmul(self.n, d2), _pmul(o.n, d1)), _pmul(d1, d2))
 
     __radd__ = __add__
@@ -352,15 +361,28 @@ class Sym:
 
     def __mul__(self, o):
         if not isinstance(o, Sym):
+            if isinstance(o, (list, tuple)):
+                from . import symnp
+                return symnp.array(o) * self
             try:
                 o = Sym.const(o)
             except TypeError:
                 return NotImplemented
         if self.d is None and o.d is None:
             return Sym(_pmul(self.n, o.n))
+        n1, n2 = self.n, o.n
         d1 = self.d or {ONE_MONO: Fraction(1)}
         d2 = o.d or {ONE_MONO: Fraction(1)}
-        return _mk(_pmul(self.n, o.n), _pmul(d1, d2))
+        # cross-cancellation (no general gcd): n1 / d2 and n2 / d1 when the division is exact
+        if len(d2) > 1 and len(n1) >= len(d2):
+            q = _pdiv_exact(n1, d2)
+            if q is not None:
+                n1, d2 = q, {ONE_MONO: Fraction(1)}
+        if len(d1) > 1 and len(n2) >= len(d1):
+            q = _pdiv_exact(n2, d1)
+            if q is not None:
+                n2, d1 = q, {ONE_MONO: Fraction(1)}
+        return _mk(_pmul(n1, n2), _pmul(d1, d2))
 
     __rmul__ = __mul__
 
@@ -380,6 +402,9 @@ class Sym:
         return self * o.inverse()
 
     def __rtruediv__(self, o):
+        if isinstance(o, (list, tuple)):
+            from . import symnp          # numpy scalars accept `list / scalar`
+            return symnp.array(o) / self
         return Sym.const(o) * self.inverse()
 
     def __pow__(self, e):
@@ -633,16 +658,26 @@ def _mono_div(a, b):
     return tuple(sorted(da.items()))
 
 
-def _pdiv_exact(n, d, max_steps=20000):
-    """exact quotient n / d of polynomials (d free of constant roots / i), or None if d does not divide n"""
+def _split_field(p):
+    """{monomial over non-constant symbols: coefficient in the constant field (a root-only polynomial)}"""
     red = T.reduce2
-    for m in d:
-        for s, _ in m:
-            if s in red:
-                return None
-    lead_d = max(d, key=_mono_key)
-    cd = d[lead_d]
-    rem = dict(n)
+    out = {}
+    for m, c in p.items():
+        xm = tuple((s, e) for s, e in m if s not in red)
+        km = tuple((s, e) for s, e in m if s in red)
+        out.setdefault(xm, {})[km] = c
+    return out
+
+
+def _pdiv_exact(n, d, max_steps=20000):
+    """exact quotient n / d in K[x] with K = Q(sqrt p.., i), or None if d does not divide n"""
+    N, D = _split_field(n), _split_field(d)
+    lead_d = max(D, key=_mono_key)
+    try:
+        inv_cd = _const_inverse(D[lead_d])
+    except ZeroDivisionError:
+        return None
+    rem = N
     q = {}
     steps = 0
     while rem:
@@ -653,17 +688,22 @@ def _pdiv_exact(n, d, max_steps=20000):
         qm = _mono_div(lm, lead_d)
         if qm is None:
             return None
-        qc = rem[lm] / cd
-        q[qm] = q.get(qm, 0) + qc
-        # rem -= qc * qm * d
-        for md, c in d.items():
-            mm, f = _mono_mul(qm, md)
-            v = rem.get(mm, 0) - qc * c * f
-            if v == 0:
+        qc = _pmul(rem[lm], inv_cd)
+        q[qm] = _padd(q.get(qm, {}), qc)
+        for md, c in D.items():
+            mm, _f = _mono_mul(qm, md)          # no reductions: both are free of constant roots
+            v = _padd(rem.get(mm, {}), _pneg(_pmul(qc, c)))
+            if not v:
                 rem.pop(mm, None)
             else:
                 rem[mm] = v
-    return {m: c for m, c in q.items() if c != 0}
+    out = {}
+    for xm, kc in q.items():
+        for km, c in kc.items():
+            if c != 0:
+                m = tuple(sorted(xm + km))
+                out[m] = c
+    return out
 
 
 def _mk(n, d):
